@@ -24,7 +24,7 @@ RULE = ('(a) the C03 history generator (minus queue/sorted-iteration calls Fanou
         '(key class, shard count, hash-seed pair) routing cells')
 DISTINCT = ('cells', 'routing_cells')
 REQUIRED = ('calls_judged', 'histories', 'shard_counts_seen', 'keys_cross_process', 'golden_hashes_compared',
-            'equal_key_pairs', 'check_damage_cases', 'aggregate_calls', 'partial_reopen_cases')
+            'equal_key_pairs', 'check_damage_cases', 'aggregate_calls', 'partial_reopen_cases', 'handle_exchanges')
 ASSUMPTIONS = ('iteration order over shards is shard-major by design: compared as a permutation',
                'golden routing was recorded from the pinned commit by tools/mkgolden.py')
 
@@ -41,6 +41,7 @@ def history(dc, sc, res, rng, shards, cfg, label):
     d = sc.new()
     clock = probe.set_clock(probe.VClock())
     drv = CacheDriver(dc, d, cfg, kind='fanout', shards=shards, clock=clock)
+    extra_handles = []
     try:
         steps = [s for s in c03.random_history(rng, cfg, rng.randrange(200, 500), wide=rng.random() < 0.4, aliases=False)   # equal int/float keys are exercised in (b): K2
                  if s[0] in FANOUT_OPS]
@@ -53,6 +54,25 @@ def history(dc, sc, res, rng, shards, cfg, label):
                 if not args[0]:
                     clock.advance(gen.TICK)
                 continue
+            if rng.random() < 0.02:
+                # the handle is exchanged for another one on the same directory: reopened with the same shard count,
+                # unpickled, or copied; it must be the same cache with the same shards
+                how = rng.randrange(3)
+                old_handle = drv.real
+                if how == 0:
+                    new_handle = dc.FanoutCache(d, shards=shards)
+                elif how == 1:
+                    new_handle = pickle.loads(pickle.dumps(old_handle))
+                else:
+                    import copy
+                    new_handle = copy.copy(old_handle)
+                extra_handles.append(new_handle)
+                res.count('handle_exchanges')
+                if len(new_handle._shards) != shards or sorted(os.listdir(d)) != ['%03d' % i for i in range(shards)]:
+                    raise Mismatch('a %s handle has %d shards (directories %r), the cache has %d' % (
+                        ['reopened', 'unpickled', 'copied'][how], len(new_handle._shards), sorted(os.listdir(d)), shards),
+                        drv.witness())
+                drv.real = new_handle
             got = drv.step(op, *args, **kw)
             res.count('evaluations')
             res.count('calls_judged')
@@ -88,6 +108,11 @@ def history(dc, sc, res, rng, shards, cfg, label):
     except Mismatch as m:
         res.violation(m.what, dict(m.witness, label=label))
     finally:
+        for h in extra_handles:
+            try:
+                h.close()
+            except Exception:      # noqa: BLE001
+                pass
         drv.close()
         sc.drop(d)
 
